@@ -373,7 +373,8 @@ pub fn sst_describe_offset(l: &SstLayout, off: usize) -> String {
 
 fn build_sst_fixture(name: &str, row: &str, blocks: usize) -> Fixture {
     let scratch = Scratch::new("fix");
-    let mut n = 4;
+    // one block: a half-full block; two and three blocks: the smallest file that has them
+    let mut n = if blocks == 1 { 12 } else { 13 };
     loop {
         let entries = sst_entries(n);
         let path = scratch.sub(&format!("{n}.sst"));
@@ -898,7 +899,10 @@ pub fn fixture_names(thorough: bool) -> Vec<String> {
     let mut v: Vec<String> = vec![];
     for row in SST_ROWS {
         for blocks in 1..=3 {
-            v.push(format!("sst-b{blocks}-{row}"));
+            // quick: the three-block file only under the default options row
+            if thorough || blocks < 3 || row == "r0" {
+                v.push(format!("sst-b{blocks}-{row}"));
+            }
         }
     }
     for n in ["log-whole", "log-split", "log-padded"] {
